@@ -300,6 +300,8 @@ pub fn apply_cause(g: &mut G, fam: &mut Fam, cause: Cause) {
 
 /// fill the clients' programs with random submissions through the handles they hold
 pub fn fill_submissions(g: &mut G, fam: &mut Fam, max_ops: u64, cancel_one_in: u64) {
+    // the thorough tier also explores longer programs
+    let max_ops = if g.thorough && g.chance(1, 3) { max_ops * 2 } else { max_ops };
     for c in 0..fam.nclients() {
         let n = g.range(1, max_ops);
         let mut ops = vec![];
